@@ -26,7 +26,8 @@ impl log::Log for CallbackLogger {
         }
 
         if self.enabled(record.metadata()) {
-            let log_str = format!("{} - {}", record.level(), record.args());
+            // A message with a NUL byte cannot be turned into a C string, and reporting that failure would bring us back here
+            let log_str = format!("{} - {}", record.level(), record.args()).replace('\0', "\\0");
             let cstr = string_to_c_char(log_str);
 
             (self.callback.unwrap())(cstr, self.data.unwrap(), record.level() as i16);
